@@ -298,10 +298,23 @@ pub fn open_lib(
     point: &[Fr],
     rng: &mut Rng,
 ) -> Result<Opened, String> {
+    open_lib_on(trap, polys, coms, states, point, rng, LogSponge::fresh())
+}
+
+/// `open_lib` on a given sponge (its log must be empty: the challenges of THIS call are read off it)
+pub fn open_lib_on(
+    trap: &Trap,
+    polys: &[LPoly],
+    coms: &[LComm],
+    states: &[HState],
+    point: &[Fr],
+    rng: &mut Rng,
+    sponge: LogSponge,
+) -> Result<Opened, String> {
     let ck = trap.params();
     let pt: Vec<Fr> = point.to_vec();
     let mut replay = rng.clone();
-    let mut sponge = LogSponge::fresh();
+    let mut sponge = sponge;
     let proofs = match guarded(|| {
         Hx::open(&ck, polys.iter(), coms.iter(), &pt, &mut sponge, states.iter(), Some(rng as &mut dyn RngCore))
     }) {
@@ -320,28 +333,36 @@ pub fn open_lib(
     if cs.len() != k {
         return Err(format!("prover squeezed {} challenges for {} polynomials", cs.len(), k));
     }
-    let (l, r) = tensors(point);
     let mut proofs_s = vec![];
     for (i, p) in proofs.iter().enumerate() {
         let st = read_state(&states[i])?;
-        let dr = &draws[i * (dim + 3)..(i + 1) * (dim + 3)];
-        let r_eval = dr[0];
-        let d = &dr[1..1 + dim];
-        let r_d = dr[dim + 1];
-        let r_b = dr[dim + 2];
-        let lt: Vec<Fr> = (0..st.mat.m)
-            .map(|col| (0..st.mat.n).map(|row| l[row] * st.mat.entries[row][col]).sum())
-            .collect();
-        let eval = dot(&lt, &r);
-        let ce = trap.ks[0] * eval + trap.h * r_eval;
-        let cd = dot(&trap.ks, d) + trap.h * r_d;
-        let cb = trap.ks[0] * dot(&r, d) + trap.h * r_b;
-        if g1(ce) != p.com_eval || g1(cd) != p.com_d || g1(cb) != p.com_b {
-            return Err("proof-element-not-key-defined".into());
-        }
-        proofs_s.push(ProofS { ce, cd, cb, z: p.z.clone(), z_d: p.z_d, z_b: p.z_b, r_eval: p.r_eval });
+        proofs_s.push(scalar_proof(trap, &st, point, &draws[i * (dim + 3)..(i + 1) * (dim + 3)], p)?);
     }
     Ok(Opened { point: pt, proofs, draws, cs, sponge, proofs_s })
+}
+
+
+/// The scalar form of one proof of the library: the three commitments are recomputed from the
+/// trapdoor, the state and the replayed draws `r_eval, d, r_d, r_b` of that proof, and CHECKED
+/// against the points the library returned.
+pub fn scalar_proof(trap: &Trap, st: &StateMirror, point: &[Fr], dr: &[Fr], p: &HyraxProof<G1Affine>) -> Result<ProofS, String> {
+    let dim = 1usize << (point.len() / 2);
+    let (l, r) = tensors(point);
+    let r_eval = dr[0];
+    let d = &dr[1..1 + dim];
+    let r_d = dr[dim + 1];
+    let r_b = dr[dim + 2];
+    let lt: Vec<Fr> = (0..st.mat.m)
+        .map(|col| (0..st.mat.n).map(|row| l[row] * st.mat.entries[row][col]).sum())
+        .collect();
+    let eval = dot(&lt, &r);
+    let ce = trap.ks[0] * eval + trap.h * r_eval;
+    let cd = dot(&trap.ks, d) + trap.h * r_d;
+    let cb = trap.ks[0] * dot(&r, d) + trap.h * r_b;
+    if g1(ce) != p.com_eval || g1(cd) != p.com_d || g1(cb) != p.com_b {
+        return Err("proof-element-not-key-defined".into());
+    }
+    Ok(ProofS { ce, cd, cb, z: p.z.clone(), z_d: p.z_d, z_b: p.z_b, r_eval: p.r_eval })
 }
 
 /// `hyrax.open` of the model against every component of the library's proofs.
@@ -412,6 +433,11 @@ pub struct Checked {
 /// Run the library's `check` on the statement and queue the model's `hyrax.check` with the
 /// challenges the verifier's sponge produced.
 pub fn run_check(ctx: &mut Ctx, id: &str, st: &Stmt) -> Checked {
+    run_check_on(ctx, id, st, LogSponge::fresh())
+}
+
+/// `run_check` on a given sponge (its log must be empty)
+pub fn run_check_on(ctx: &mut Ctx, id: &str, st: &Stmt, sponge: LogSponge) -> Checked {
     let vk = HyraxUniversalParams { com_key: pts(&st.ks), h: g1(st.h) };
     let lcoms: Vec<LComm> = st
         .coms
@@ -420,7 +446,7 @@ pub fn run_check(ctx: &mut Ctx, id: &str, st: &Stmt) -> Checked {
         .map(|(i, rows)| LabeledCommitment::new(format!("p{}", i), HyraxCommitment { row_coms: pts(rows) }, Some(1)))
         .collect();
     let proofs: Vec<HyraxProof<G1Affine>> = st.proofs.iter().map(|p| p.to_lib()).collect();
-    let mut sponge = LogSponge::fresh();
+    let mut sponge = sponge;
     let res = guarded(|| Hx::check(&vk, lcoms.iter(), &st.point, st.values.clone(), &proofs, &mut sponge, None));
     let (out, dec, detail) = match res {
         Ok(Ok(b)) => (
@@ -461,4 +487,124 @@ pub fn honest_stmt(c: &Case, o: &Opened) -> Stmt {
         values,
         proofs: o.proofs_s.clone(),
     }
+}
+
+
+// ------------------------------------------------------------------------------------------------
+// C11: the recorded sponge log in the model's event vocabulary
+// ------------------------------------------------------------------------------------------------
+
+pub fn g1_bytes(p: &G1Affine) -> Vec<u8> {
+    let mut b = vec![];
+    p.serialize_compressed(&mut b).unwrap();
+    b
+}
+
+/// scalars of every group element a case can absorb, keyed by the element's compressed bytes
+pub struct Dict(pub std::collections::HashMap<Vec<u8>, Fr>);
+impl Dict {
+    pub fn new() -> Self {
+        Dict(std::collections::HashMap::new())
+    }
+    pub fn add(&mut self, ss: &[Fr]) {
+        if ss.is_empty() {
+            return;
+        }
+        for (s, p) in ss.iter().zip(g1s(ss)) {
+            self.0.insert(g1_bytes(&p), *s);
+        }
+    }
+}
+
+fn ev(tag: usize, rest: Vec<Val>) -> Val {
+    let mut v = vec![wire::nat(tag)];
+    v.extend(rest);
+    Val::L(v)
+}
+
+/// One absorbed byte string, decoded by STRUCTURE only (no knowledge of the protocol): a single
+/// known group element `[1,s]`; a length-prefixed vector of known group elements `[2,[s..]]`; such a
+/// vector followed by one more element (the serialized key) `[3,[s..],h]`; a concatenation of
+/// canonical field elements `[4,[x..]]`; anything else `[9,bytes]`.
+pub fn decode_absorb(b: &[u8], dict: &Dict) -> Val {
+    let g = g1_bytes(&g1(Fr::one())).len();
+    if b.len() == g {
+        if let Some(s) = dict.0.get(b) {
+            return ev(1, vec![wire::fe(s)]);
+        }
+    }
+    if b.len() >= 8 {
+        let n = u64::from_le_bytes(b[..8].try_into().unwrap()) as usize;
+        let body = &b[8..];
+        let parse = |bytes: &[u8]| -> Option<Vec<Fr>> { bytes.chunks(g).map(|c| dict.0.get(c).cloned()).collect() };
+        if n.checked_mul(g) == Some(body.len()) {
+            if let Some(ss) = parse(body) {
+                return ev(2, vec![wire::fes(&ss)]);
+            }
+        }
+        if n.checked_mul(g).and_then(|x| x.checked_add(g)) == Some(body.len()) {
+            if let (Some(ss), Some(h)) = (parse(&body[..n * g]), dict.0.get(&body[n * g..])) {
+                return ev(3, vec![wire::fes(&ss), wire::fe(h)]);
+            }
+        }
+    }
+    let f = Fr::zero().compressed_size();
+    if b.len() % f == 0 {
+        let xs: Option<Vec<Fr>> = b.chunks(f).map(|c| Fr::deserialize_compressed(c).ok()).collect();
+        if let Some(xs) = xs {
+            return ev(4, vec![wire::fes(&xs)]);
+        }
+    }
+    ev(9, vec![Val::L(b.iter().map(|x| wire::nat(*x as usize)).collect())])
+}
+
+/// the recorded log in the wire form of the model's events
+pub fn decode_log(log: &[Event], dict: &Dict) -> Val {
+    Val::L(
+        log.iter()
+            .map(|e| match e {
+                Event::Absorb(b) => decode_absorb(b, dict),
+                Event::SqueezeFe(sizes, _) if sizes.iter().all(|s| s.is_none()) => ev(10, vec![wire::nat(sizes.len())]),
+                Event::SqueezeFe(sizes, _) => ev(12, vec![wire::nat(sizes.len())]),
+                Event::SqueezeBytes(n, _) => ev(11, vec![wire::nat(*n)]),
+                Event::SqueezeBits(n) => ev(13, vec![wire::nat(*n)]),
+            })
+            .collect(),
+    )
+}
+
+/// the answers of the field squeezes of a log, in order (`sq=` of `hyrax.transcript`)
+pub fn squeezed(log: &LogSponge) -> Val {
+    use std::str::FromStr;
+    Val::L(
+        log.log
+            .iter()
+            .filter_map(|e| match e {
+                Event::SqueezeFe(_, outs) => Some(wire::fes(&outs.iter().map(|o| Fr::from_str(o).unwrap()).collect::<Vec<_>>())),
+                Event::SqueezeBytes(..) | Event::SqueezeBits(..) => Some(Val::L(vec![])),
+                _ => None,
+            })
+            .collect(),
+    )
+}
+
+pub fn proof_args(req: Req, ps: &[ProofS]) -> Req {
+    req.arg("com_eval", wire::fes(&ps.iter().map(|p| p.ce).collect::<Vec<_>>()))
+        .arg("com_d", wire::fes(&ps.iter().map(|p| p.cd).collect::<Vec<_>>()))
+        .arg("com_b", wire::fes(&ps.iter().map(|p| p.cb).collect::<Vec<_>>()))
+        .arg("zs", wire::fess(&ps.iter().map(|p| p.z.clone()).collect::<Vec<_>>()))
+        .arg("z_d", wire::fes(&ps.iter().map(|p| p.z_d).collect::<Vec<_>>()))
+        .arg("z_b", wire::fes(&ps.iter().map(|p| p.z_b).collect::<Vec<_>>()))
+        .arg("r_eval", wire::fes(&ps.iter().map(|p| p.r_eval).collect::<Vec<_>>()))
+}
+
+pub fn state_args(req: Req, mirrors: &[StateMirror]) -> Req {
+    req.arg("rands", wire::fess(&mirrors.iter().map(|m| m.randomness.clone()).collect::<Vec<_>>()))
+        .arg("mat_n", wire::nats(&mirrors.iter().map(|m| m.mat.n).collect::<Vec<_>>()))
+        .arg("mat_m", wire::nats(&mirrors.iter().map(|m| m.mat.m).collect::<Vec<_>>()))
+        .arg("mats", Val::L(mirrors.iter().map(|m| wire::fess(&m.mat.entries)).collect()))
+}
+
+pub fn labels_val(ls: &[String]) -> Val {
+    Val::L(ls.iter().map(|l| wire::label(l)).collect())
 }
